@@ -183,7 +183,11 @@ class Gen:
                 if vn in scope_used:
                     vn = vn + "_" + str(len(scope_used))
                 py = self.naming.mem(vn, "_" + "_".join(t.path)) if self.naming else vn
-                if vn not in scope_used and py not in pynames:
+                # protoc: names must stay distinct after stripping the enum-name prefix, ignoring case and '_'
+                pk = vn[len(prefix):] if vn.upper().startswith(prefix) else vn
+                pk = "protoc:" + pk.lower().replace("_", "")
+                if vn not in scope_used and py not in pynames and pk not in pynames:
+                    pynames.add(pk)
                     break
                 self.s.filtered["enum_member_collision"] += 1
             else:
@@ -311,6 +315,8 @@ class Gen:
         def fname():
             for _ in range(40):
                 n = rng.choice(FIELD_NAMES)
+                if n in ("int", "str", "bytes", "bool", "float", "datetime", "timedelta") and rng.random() < 0.85:
+                    continue     # D33 / D34 (known findings) make the whole package unimportable: keep them rare
                 py = self.naming.fld(n) if self.naming else n
                 js = self.json_name(n)
                 entry = self.map_entry_name(n)
